@@ -514,7 +514,7 @@ impl Descriptor for DecoderSpecificDescriptor {
 fn get_audio_object_type(byte_a: u8, byte_b: u8) -> u8 {
     let mut profile = byte_a >> 3;
     if profile == 31 {
-        profile = 32 + ((byte_a & 7) | (byte_b >> 5));
+        profile = 32 + (((byte_a & 7) << 3) | (byte_b >> 5));
     }
 
     profile
@@ -533,7 +533,7 @@ fn get_chan_conf<R: Read + Seek>(
         chan_conf = ((sample_rate >> 4) & 0x0F) as u8;
     } else if extended_profile {
         let byte_c = reader.read_u8()?;
-        chan_conf = (byte_b & 1) | (byte_c & 0xE0);
+        chan_conf = ((byte_b & 1) << 3) | (byte_c >> 5);
     } else {
         chan_conf = (byte_b >> 3) & 0x0F;
     }
